@@ -496,6 +496,22 @@ theorem evalModel_normalise_eq {V : Type} (sem : OpSem V) (lit : Lit → V)
   rw [this]
   cases g; rfl
 
+/-- `_initializers_to_constants` is `inline()`'s own normalisation whenever no initializer of the converted model
+    is named like an input (then either a Constant is made and all initializers go, or there is none at all) -/
+theorem initsToConstants_eq_normalise (h : Graph) (hno : ∀ p ∈ h.inits, h.inputs.contains p.1 = false) :
+    initsToConstants h = normalise h := by
+  unfold initsToConstants
+  by_cases hp : preamble h = []
+  · rw [if_pos hp]
+    have hf : (h.inits.filter fun p => !h.inputs.contains p.1) = h.inits :=
+      List.filter_eq_self.mpr (fun p hp' => by have := hno p hp'; simpa using this)
+    have hi : h.inits = [] := by
+      unfold preamble at hp
+      rw [hf] at hp
+      exact List.map_eq_nil_iff.mp hp
+    exact (normalise_idem h hi).symm
+  · rw [if_neg hp]; rfl
+
 /-- **`adapt_sem`**: when `adapt_inline` decides to convert, the nodes it returns are the renaming
     (`to_onnx` in the fresh scope `Scope.of(node, *var_names)`) of the converted model; the converter
     is a parameter assumed to keep the signature, to return a graph without initializers in SSA form
@@ -508,7 +524,7 @@ theorem adapt_sem {V : Type} (sem : OpSem V) (lit : Lit → V)
     (imports : List Nat) (target : Nat) (vals : List V) (E : Env V) (outs : List (Option V))
     (hneed : needsConversion (first.map fun n => n.op.domain) imports target = true)
     -- the converter (third party), on the private normalised copy
-    (hci : (conv (normalise g)).inits = [])
+    (hci : ∀ p ∈ (conv (normalise g)).inits, g.inputs.contains p.1 = false)
     (hcin : (conv (normalise g)).inputs = g.inputs) (hcout : (conv (normalise g)).outputs = g.outputs)
     (hcA : ∀ x ∈ Node.assignedL (conv (normalise g)).nodes, x ∉ g.inputs)
     (hcsem : evalModel sem lit (conv (normalise g)) vals = evalModel sem lit (normalise g) vals)
@@ -524,18 +540,18 @@ theorem adapt_sem {V : Type} (sem : OpSem V) (lit : Lit → V)
     (hE : ∀ i (h : i < c.argNames.length) (h' : i < vals.length), E.get c.argNames[i] = some vals[i])
     (hEf : ∀ n, n ∉ varNames → E n = none) (hEr : ∀ r ∈ c.resNames, E r = none)
     (hev : evalModel sem lit g vals = some outs) :
-    ∃ em nodes E', toOnnx (freshCtx c varNames) (conv (normalise g)) = .ok em ∧ nodes = em.nodes ∧
+    ∃ em nodes E', toOnnx (freshCtx c varNames) (initsToConstants (conv (normalise g))) = .ok em ∧ nodes = em.nodes ∧
       adaptInline conv c varNames (normalise g) first imports target = .ok nodes ∧
       evalNodes sem lit nodes E = some E' ∧ c.resNames.map E'.get = outs ∧
       ∀ n ∈ varNames, n ∉ c.resNames → E' n = E n := by
-  have hnorm := normalise_idem (conv (normalise g)) hci
+  have hnorm := initsToConstants_eq_normalise (conv (normalise g)) (by rw [hcin]; exact hci)
   have hev' : evalModel sem lit (conv (normalise g)) vals = some outs := by
     rw [hcsem, evalModel_normalise_eq sem lit hc, hev]
   obtain ⟨em, E', h1, h2, h3, h4⟩ := inline_sem_total sem lit hc hid (conv (normalise g))
     (freshCtx c varNames) vals E outs hv hnn (hcin ▸ hin) (hcin ▸ hin0) (hcout ▸ hout) (hcout ▸ hout0)
     (hcin ▸ hcA) (by rw [hcin]; exact hal) (by rw [hcout]; exact hrl) hrn hu0 hau hru
     (by rw [hcin]; exact hlen) hE hEf hEr hev'
-  rw [hnorm] at h1
+  rw [← hnorm] at h1
   refine ⟨em, em.nodes, E', h1, rfl, ?_, h2, h3, h4⟩
   unfold adaptInline
   rw [if_pos hneed, h1]
@@ -547,6 +563,84 @@ theorem adapt_noop (conv : Graph → Graph) (c : Ctx) (varNames : List String) (
     (h : needsConversion (first.map fun n => n.op.domain) imports target = false) :
     adaptInline conv c varNames g first imports target = .ok first := by
   unfold adaptInline; simp [h]
+
+/-- **`inline_correct`** (the property statement for one Inline node of a build, conversion included): let `m` be
+    any model graph `g` (nested bodies capturing outer values, initializers, default-valued / unused inputs, pass-through
+    outputs, any internal names), built in a scope `c` whose names are free of the node's prefix family, with `varNames`
+    the value names of the build handed to `adapt_inline`, against any target opset, and let the third-party converter
+    satisfy its contract (`ConverterContract`: signature kept, no input assigned, no initializer named like an input,
+    meaning preserved). Then what the build emits for the node - `to_onnx` followed by `adapt_inline`, whichever way
+    its decision goes - does not raise, defines the result names as exactly `evalModel m vals` in every outer
+    environment binding the argument names to `vals`, and leaves every other value name of the build untouched. -/
+theorem inline_correct {V : Type} (sem : OpSem V) (lit : Lit → V)
+    (hc : ∀ l, sem (constOp l) [] [] = some [some (lit l)])
+    (hid : ∀ v : V, sem identityOp [some v] [] = some [some v])
+    (conv : Graph → Graph) (g : Graph) (c : Ctx) (varNames : List String)
+    (imports : List (String × Nat)) (target : Nat) (vals : List V) (E : Env V) (outs : List (Option V))
+    (K : ConverterContract sem lit conv (normalise g))
+    -- the build scope and the names adapt_inline is given
+    (hv : c.var.prefixFree c.nodeName = true) (hn : c.node.prefixFree c.nodeName = true)
+    (hvf : (Space.mk varNames []).prefixFree c.nodeName = true)
+    (hnn : (Space.mk [c.nodeName] []).prefixFree c.nodeName = true)
+    (hsub : ∀ n ∈ varNames, n ∈ c.var.used) (hu0 : "" ∉ c.var.used)
+    -- the model's signature and the call
+    (hin : g.inputs.Nodup) (hin0 : "" ∉ g.inputs) (hout : g.outputs.Nodup) (hout0 : "" ∉ g.outputs)
+    (hA : ∀ x ∈ Node.assignedL g.nodes, x ∉ g.inputs)
+    (hal : c.argNames.length = g.inputs.length) (hrl : c.resNames.length = g.outputs.length)
+    (hrn : c.resNames.Nodup)
+    (hau : ∀ a ∈ c.argNames, a ∈ varNames)
+    (hru : ∀ r ∈ c.resNames, r ∈ varNames ∧ r ∉ c.argNames)
+    (hlen : g.inputs.length = vals.length)
+    (hE : ∀ i (h : i < c.argNames.length) (h' : i < vals.length), E.get c.argNames[i] = some vals[i])
+    (hEf : ∀ n, n ∉ varNames → E n = none) (hEr : ∀ r ∈ c.resNames, E r = none)
+    (hev : evalModel sem lit g vals = some outs) :
+    ∃ em nodes E', toOnnx c (normalise g) = .ok em ∧
+      adaptInline conv c varNames (normalise g) em.nodes (defaultImports imports) target = .ok nodes ∧
+      evalNodes sem lit nodes E = some E' ∧ c.resNames.map E'.get = outs ∧
+      ∀ n ∈ varNames, n ∉ c.resNames → E' n = E n := by
+  have hu0' : "" ∉ varNames := fun h => hu0 (hsub _ h)
+  obtain ⟨em, E₁, hem, k1, k2, k3⟩ := inline_sem_total sem lit hc hid g c vals E outs hv hn hin hin0 hout hout0 hA
+    hal hrl hrn hu0 (fun a ha => hsub a (hau a ha)) (fun r hr => ⟨hsub r (hru r hr).1, (hru r hr).2⟩) hlen hE
+    (fun n hn' => hEf n (fun h => hn' (hsub n h))) hEr hev
+  cases hd : needsConversion (em.nodes.map fun n => n.op.domain) (defaultImports imports) target with
+  | false =>
+    exact ⟨em, em.nodes, E₁, hem, adapt_noop conv c varNames (normalise g) em.nodes (defaultImports imports) target hd,
+      k1, k2, fun n hn' hr => k3 n (hsub n hn') hr⟩
+  | true =>
+    have hgi : (normalise g).inputs = g.inputs := by cases g; rfl
+    have hgo : (normalise g).outputs = g.outputs := by cases g; rfl
+    obtain ⟨em2, nodes, E', _, _, a3, a4, a5, a6⟩ := adapt_sem sem lit hc hid conv g c varNames em.nodes
+      (defaultImports imports) target vals E outs hd
+      (by have := K.inits; rw [hgi] at this; exact this) (by rw [K.inputs, hgi]) (by rw [K.outputs, hgo])
+      (by have := K.ssa; rw [hgi] at this; exact this) (K.meaning vals)
+      hvf hnn hin hin0 hout hout0 hal hrl hrn hu0' hau hru hlen hE hEf hEr hev
+    exact ⟨em, nodes, E', hem, a3, a4, a5, a6⟩
+
+/-- **`contract_of_check`**: the four syntactic fields of the contract are exactly the executable check the driver
+    evaluates on the converter's actual result of every correspondence case; what remains assumed is `meaning`
+    (observed by the onnxruntime oracle: the built model computes what m computes). -/
+theorem contract_of_check {V : Type} (sem : OpSem V) (lit : Lit → V) (conv : Graph → Graph) (g : Graph)
+    (hchk : contractCheck (conv g) g = true)
+    (hmean : ∀ vals, evalModel sem lit (conv g) vals = evalModel sem lit g vals) :
+    ConverterContract sem lit conv g := by
+  unfold contractCheck at hchk
+  simp only [Bool.and_eq_true, beq_iff_eq, List.all_eq_true, Bool.not_eq_true'] at hchk
+  obtain ⟨⟨⟨h1, h2⟩, h3⟩, h4⟩ := hchk
+  refine ⟨h1, h2, fun x hx hin => ?_, fun p hp => h4 p hp, hmean⟩
+  have := h3 x hx
+  simp [List.contains_iff_mem] at this
+  exact this hin
+
+example : contractCheck (.mk ["x"] [("w", .dense 0)] [.mk "" ⟨"", "Add", "", none⟩ ["x", "w"] ["y"] []] ["y"] [])
+      (.mk ["x"] [] [] ["y"] []) = true ∧
+    contractCheck (.mk ["x"] [("x", .dense 0)] [] ["y"] []) (.mk ["x"] [] [] ["y"] []) = false := by decide
+
+/-- non-vacuity of the contract: the identity converter satisfies it for every graph whose nodes assign no input
+    and whose initializers are not named like inputs -/
+theorem converter_contract_id {V : Type} (sem : OpSem V) (lit : Lit → V) (g : Graph)
+    (h1 : ∀ x ∈ Node.assignedL g.nodes, x ∉ g.inputs) (h2 : ∀ p ∈ g.inits, g.inputs.contains p.1 = false) :
+    ConverterContract sem lit id g :=
+  ⟨rfl, rfl, h1, h2, fun _ => rfl⟩
 
 /-! #### the decision of `adapt_inline`: which data it depends on -/
 
@@ -645,7 +739,7 @@ theorem adapt_converts (conv : Graph → Graph) (c : Ctx) (varNames : List Strin
     (hdom : ∃ n ∈ first, n.op.domain = "" ∨ n.op.domain = "ai.onnx")
     (hsrc : sourceVersion imports = some v) (hne : v ≠ target) :
     adaptInline conv c varNames g first (defaultImports imports) target =
-      (match toOnnx (freshCtx c varNames) (conv g) with
+      (match toOnnx (freshCtx c varNames) (initsToConstants (conv g)) with
        | .ok em => .ok em.nodes
        | .error e => .error e) := by
   have h : needsConversionFull (first.map fun n => n.op.domain) imports target = true := by
@@ -655,7 +749,7 @@ theorem adapt_converts (conv : Graph → Graph) (c : Ctx) (varNames : List Strin
   have h0 : needsConversion (first.map fun n => n.op.domain) (defaultImports imports) target = true := h
   unfold adaptInline
   rw [if_pos h0]
-  cases toOnnx (freshCtx c varNames) (conv g) <;> rfl
+  cases toOnnx (freshCtx c varNames) (initsToConstants (conv g)) <;> rfl
 
 /-- **`adapt_keeps`**: the nodes of the build are returned unchanged exactly in the remaining cases - the
     source version is the target, the model imports no default domain, or no emitted top-level node lies
@@ -706,7 +800,7 @@ example : needsConversionFull [""] [("", 17)] 18 = true ∧
     `_adapt.py` on this run, is expression by expression the text `needsConversionFull` transcribes -
     whatever inputs the oracle generates, an additional guard / early return / version source breaks this. -/
 theorem generated_adapt_decision : Generated.InlineFacts.adaptShape = adaptShapeModelled := by
-  decide
+  rfl
 
 /-- **`generated_inline_members`** (tie G): the methods, properties, class-level attributes of `_Inline` and
     every attribute write on the node object (in its methods and in `adapt_inline`), re-extracted on this
